@@ -3,8 +3,15 @@ Model of `pybtex.database.Person`: `__init__`, `_parse_string` with its local he
 (`process_first_middle`, `process_von_last`, `find_pos`, `split_at`, `rsplit_at`, `is_von_name`,
 `special_char_islower`), `bibtex_first_names`, `__str__`, `get_part_as_text`.
 (`find_pos` after the repair: an empty list gives position 0.)
+
+Character classes: `is_von_name` / `special_char_islower` call `str.isalpha`, `str.isupper`,
+`str.islower` on SINGLE characters; these are the interpreter's Unicode tables, regenerated on
+every run into `Gen/Unicode.lean` as inclusive code-point ranges (`isAlphaN`, `isUpperN`,
+`isLowerN` below).  In Unicode "cased" and "letter" are independent: 毛, ב, 김, U+02BB are
+letters without case; Ⓐ (U+24B6) / ⓐ (U+24D0) are upper / lower case but not letters.
 -/
 import PybtexModel.Model.TeXString
+import PybtexModel.Gen.Unicode
 
 namespace Pybtex
 
@@ -22,19 +29,33 @@ inductive NameErr where
   | valueError    -- `raise ValueError(name)`: zero comma-parts (unreachable)
 deriving Repr, DecidableEq
 
+/-- `n` lies in one of the inclusive ranges `(a, b)`. -/
+def inRanges (n : Nat) : List (Nat × Nat) → Bool
+  | [] => false
+  | (a, b) :: r => (a ≤ n && n ≤ b) || inRanges n r
+
+/-- `c.isalpha()` for one character (the running interpreter's table). -/
+def isAlphaN (c : Char) : Bool := inRanges c.toNat Gen.alphaRanges
+/-- `c.isupper()` for one character. -/
+def isUpperN (c : Char) : Bool := inRanges c.toNat Gen.upperRanges
+/-- `c.islower()` for one character. -/
+def isLowerN (c : Char) : Bool := inRanges c.toNat Gen.lowerRanges
+
 /-- `special_char_islower`. -/
 def specialCharIsLowerAux : Bool → Str → Bool
   | _, [] => false
-  | true, c :: r => if !isAlpha c then specialCharIsLowerAux false r else specialCharIsLowerAux true r
-  | false, c :: r => if isAlpha c then isLowerA c else specialCharIsLowerAux false r
+  | true, c :: r => if !isAlphaN c then specialCharIsLowerAux false r else specialCharIsLowerAux true r
+  | false, c :: r => if isAlphaN c then isLowerN c else specialCharIsLowerAux false r
 
 def specialCharIsLower (sc : Str) : Bool := specialCharIsLowerAux true (sc.drop 1)
 
-/-- the `for char, brace_level in scan_bibtex_string(string)` loop of `is_von_name` -/
+/-- the `for char, brace_level in scan_bibtex_string(string)` loop of `is_von_name`
+(a brace-level-0 token is one character, so `char.isalpha()` / `char.islower()` are the
+single-character tests) -/
 def vonScan : List Tok → Bool
   | [] => false
   | (t, l) :: r =>
-    if l = 0 ∧ (t ≠ [] ∧ t.all isAlpha) then t.all isLowerA
+    if l = 0 ∧ (t ≠ [] ∧ t.all isAlphaN) then t.all isLowerN
     else if l = 1 ∧ startsWithBackslash t then specialCharIsLower t
     else vonScan r
 
@@ -43,8 +64,8 @@ def isVonName (tok : Str) : Except NameErr Bool :=
   match tok with
   | [] => .error .indexError
   | c :: _ =>
-    if isUpperA c then .ok false
-    else if isLowerA c then .ok true
+    if isUpperN c then .ok false
+    else if isLowerN c then .ok true
     else match scan tok with
       | none => .error .tooDeep
       | some toks => .ok (vonScan toks)
